@@ -14,17 +14,20 @@ namespace Earverif.AdmV
 inductive TypeDef | directSpeakers | matrix | objects | hoa | binaural
   deriving DecidableEq, Repr, Inhabited
 
-/-- One `MatrixCoefficient` of a Matrix audioBlockFormat. `badParam`: one of gainVar/delayVar/phaseVar/phase is
-set or `delay < 0` (what `_validate_matrix_channel` rejects). -/
+/-- One `MatrixCoefficient` of a Matrix audioBlockFormat. `badVar`: one of gainVar/delayVar/phaseVar/phase is
+set; `negDelay`: `delay is not None and delay < 0` (the two things `_validate_matrix_channel` rejects, in that order). -/
 structure Coeff where
   input : Option Nat := none
-  badParam : Bool := false
+  badVar : Bool := false
+  negDelay : Bool := false
   deriving Repr, Inhabited, DecidableEq
 
 /-- One audioBlockFormat, reduced to the fields the validators read.
 `cartMismatch`: `cartesian != isinstance(position, ObjectCartesianPosition)` (Objects);
 `equation/order/degree/norm/scr`: HOA block attributes (`normalization`, `screenRef` as tokens);
-`outCh/coeffs`: Matrix block `outputChannelFormat` and `matrix` (rtime/duration are unset in modelled documents). -/
+`outCh/coeffs`: Matrix block `outputChannelFormat` and `matrix`;
+`rtime/duration`: the block's `rtime` / `duration` (any block type) and `nfc`: the HOA block's `nfcRefDist`, as value
+tokens (equal values = equal tokens; token 0 of `nfc` is the value `0.0`, which `hoa.get_nfcRefDist` maps to `None`). -/
 structure Block where
   cartMismatch : Bool := false
   equation : Bool := false
@@ -34,6 +37,9 @@ structure Block where
   scr : Option Nat := none
   outCh : Option Nat := none
   coeffs : List Coeff := []
+  rtime : Option Nat := none
+  duration : Option Nat := none
+  nfc : Option Nat := none
   deriving Repr, Inhabited, DecidableEq
 
 /-- audioChannelFormat; `freq` = `frequency.lowPass is not None or frequency.highPass is not None`. -/
@@ -43,7 +49,8 @@ structure Channel where
   blocks : List Block := []
   deriving Repr, Inhabited
 
-/-- audioPackFormat. -/
+/-- audioPackFormat. `norm/scr/nfc/absDist`: `normalization`, `screenRef`, `nfcRefDist`, `absoluteDistance` as value
+tokens (`norm` 0 = "SN3D", `scr` 0 = False: the defaults of `hoa.get_normalization/get_screenRef`; `nfc` 0 = 0.0). -/
 structure Pack where
   type : TypeDef
   channels : List Nat := []
@@ -53,6 +60,8 @@ structure Pack where
   output : Option Nat := none
   norm : Option Nat := none
   scr : Option Nat := none
+  nfc : Option Nat := none
+  absDist : Option Nat := none
   deriving Repr, Inhabited
 
 /-- audioStreamFormat. -/
@@ -75,14 +84,20 @@ structure TrackUID where
   deriving Repr, Inhabited
 
 /-- audioObject. `tracks` entries `none` are silent tracks (`ATU_00000000`).
-`params` = any of start/duration/gain≠1/mute/positionOffset is set or `alternativeValueSets` is non-empty;
+`pstart/pdur/pgain/pmute/poffset` = `start is not None`, `duration is not None`, `gain != 1.0`, `mute`,
+`positionOffset is not None` (what `_validate_object_parameters_in_leaves` tests, in that order, before
+`alternativeValueSets` non-empty);
 `avs` = the object's alternativeValueSet child elements, as tokens (an AVS element is identified by its token). -/
 structure Obj where
   objects : List Nat := []
   packs : List Nat := []
   tracks : List (Option Nat) := []
   comps : List Nat := []
-  params : Bool := false
+  pstart : Bool := false
+  pdur : Bool := false
+  pgain : Bool := false
+  pmute : Bool := false
+  poffset : Bool := false
   avs : List Nat := []
   deriving Repr, Inhabited
 
